@@ -145,6 +145,13 @@ func (prop) Child(b core.Batch, o *core.Obs) {
 			ob.Events += info.Events
 			ob.Linger1 += info.Linger
 		}
+		// the service's fixed cases (boundary values, request storms) belong to every history
+		for i := 0; i < w.FixedCount(); i++ {
+			info := w.Run(b.Seed, i, 400+from+i, true)
+			ob.Replies += info.Reply
+			ob.Events += info.Events
+			ob.Linger1 += info.Linger
+		}
 		if s.Type == "ftp" {
 			// passive-mode requests that are never connected to, with and without a transfer command
 			for i, cmds := range [][]string{{"PASV"}, {"EPSV"}, {"PASV", "LIST"}, {"EPSV", "NLST"}, {"PASV", "RETR x"}} {
